@@ -70,11 +70,12 @@ def args_key(a):
     return str(a)
 
 
-def run_invocation(out, name, args, prev_ths, origin):
+def run_invocation(out, name, args, prev_ths, origin, again=""):
+    """`again` non-empty: a deliberate repetition of an invocation at a later point of the process history"""
     if not theory.has_macro(name):
         return
     macro = theory.get_macro(name)
-    key = "%s:%s" % (name, digest([args_key(args), [json.dumps(encS(p)) for p in prev_ths]]))
+    key = "%s:%s" % (name, digest([args_key(args), [json.dumps(encS(p)) for p in prev_ths]])) + again
     if key in out.seen:
         return
     out.seen.add(key)
@@ -115,7 +116,9 @@ def run_invocation(out, name, args, prev_ths, origin):
         ev["check"] = [True] + seq_of(x)
         ev["check_exc"] = ""
         ev["evaluated_macros"] = sorted(getattr(rpt, "macros_eval", {}) or [])
+        ev["gaps"] = len(rpt.gaps)           # the stated premises are gaps; anything beyond them is an unproved step of the expansion
     except Exception as ex:
+        ev["gaps"] = -1
         ev["check"] = [False, [], -1]
         ev["check_exc"] = type(ex).__name__ + ": " + str(ex)[:100].replace("\n", " ")
         ev["evaluated_macros"] = []
@@ -196,6 +199,11 @@ def mutate(out, name, args, prev_ths, origin, rnd):
             muts.append((args, prev_ths[:i] + [Thm(p.prop.arg1, *p.hyps)] + prev_ths[i + 1:], "shorten-premise"))
         if p.prop.is_disj():
             muts.append((args, prev_ths[:i] + [Thm(p.prop.arg1, *p.hyps)] + prev_ths[i + 1:], "shorten-premise"))
+        # one premise at a time depends on a hypothesis of its own that no other premise carries
+        idx = list(range(len(prev_ths))) if SEEN_MACRO.get(name, 0) <= 8 else [i]
+        for j in idx[:6]:
+            pj = prev_ths[j]
+            muts.append((args, prev_ths[:j] + [Thm(pj.prop, *pj.hyps, Var("verif_hyp_%d" % j, BoolType))] + prev_ths[j + 1:], "own-hypothesis-%d" % j))
     if isinstance(args, Term) and args.get_type() == BoolType:
         if args.is_conj():
             muts.append((args.arg1, prev_ths, "goal-conjunct"))
@@ -264,6 +272,13 @@ def fresh_instances(out, rnd, n):
                 As, C = th.prop.subst_norm(inst).strip_implies()
                 pts = [Thm(A) for A in As]
                 run_invocation(out, "apply_theorem_for", (name, inst), pts, "fresh-higher-order")
+                # ... with no premise at all (the instance itself, as an implication), with a proper prefix of the premises, and with
+                # the premises as they stand BEFORE normalisation
+                run_invocation(out, "apply_theorem_for", (name, inst), [], "fresh-higher-order/no-premises")
+                if len(pts) > 1:
+                    run_invocation(out, "apply_theorem_for", (name, inst), pts[:1], "fresh-higher-order/first-premise")
+                As2, _ = th.prop.subst(inst).strip_implies()
+                run_invocation(out, "apply_theorem_for", (name, inst), [Thm(A) for A in As2], "fresh-higher-order/raw-premises")
             except Exception as e:
                 sys.stderr.write("fresh-higher-order skipped %s: %r\n" % (name, e))
 
@@ -364,8 +379,99 @@ def arith(vec_path, out_path, limit):
     print("arith macro events", out.tid, "macros", names)
 
 
+def autohist(out_path, seed, limit=0):
+    """histories of `auto` invocations in ONE process: for every rewrite rule in the normalisation tables of logic/auto.py (read from
+    the registered rule closures), the rule's own instance is asked WITH its side conditions as premises, then WITHOUT them, then
+    with them again; and in the opposite order for a second instance.  Unconditional rules are asked once."""
+    import contextlib
+    import io
+    from logic import auto
+    basic.load_theory("realintegral")
+    from data import real  # noqa  registers the rule tables
+    try:
+        from integral import proof as _iproof  # noqa  more tables
+    except Exception as e:
+        sys.stderr.write("autohist: integral.proof not importable: %r\n" % (e,))
+    rnd = random.Random(seed)
+    names = set()
+    for head, fs in auto.global_autos_norm.items():
+        for f in fs:
+            clo = getattr(f, "__closure__", None)
+            if clo:
+                for nm, cell in zip(f.__code__.co_freevars, clo):
+                    if nm == "th_names":
+                        names |= set(cell.cell_contents)
+    out = Out(out_path)
+    pools = (["x", "y", "z", "w"], ["u", "v", "s", "t"])
+
+    def instance(th, pool):
+        inst = Inst()
+        for i, sv in enumerate(sorted(th.prop.get_svars(), key=lambda v: v.name)):
+            inst[sv.name] = Var(pool[i % len(pool)] + ("" if i < len(pool) else str(i)), sv.T)
+        tyinst = {}
+        As, C = th.prop.subst(inst).strip_implies()
+        return As, C
+
+    import signal
+
+    class Slow(BaseException):
+        pass
+
+    def on_alarm(sig, frm):
+        raise Slow()
+    signal.signal(signal.SIGALRM, on_alarm)
+    slow = set()
+
+    def ask(goal, prems, origin, again=""):
+        # the normaliser does not terminate on every instance (rules that rewrite back and forth): an invocation that is not
+        # answered within the allowance is abandoned and no event is written for it (nor for later steps on the same rule)
+        rule = origin.split("/")[1]
+        if rule in slow:
+            return
+        with contextlib.redirect_stdout(io.StringIO()):
+            signal.alarm(20)
+            try:
+                run_invocation(out, "auto", goal, prems, origin, again=again)
+            except Slow:
+                slow.add(rule)
+                sys.stderr.write("autohist: abandoned (slow) %s\n" % origin)
+            except Exception as e:
+                sys.stderr.write("autohist invocation skipped: %r\n" % (e,))
+            finally:
+                signal.alarm(0)
+    names = sorted(n for n in names if theory.thy.has_theorem(n) and not theory.get_theorem(n).prop.get_stvars())
+    cond = [n for n in names if theory.get_theorem(n).prop.is_implies()]
+    if limit and len(cond) > limit:
+        keep = set(rnd.sample(cond, limit))
+        names = [n for n in names if n in keep or n not in cond]
+    for name in names:
+        th = theory.get_theorem(name)
+        for k, pool in enumerate(pools):
+            try:
+                As, C = instance(th, pool)
+            except Exception:
+                continue
+            if not C.is_equals():
+                continue
+            prems = [Thm(A) for A in As]
+            if not prems:
+                if k == 0:
+                    ask(C, [], "autohist/%s/unconditional" % name)
+                continue
+            order = ["with", "without", "with", "part"] if k == 0 else ["without", "with", "without", "part"]
+            for step, how in enumerate(order):
+                ps = prems if how == "with" else ([] if how == "without" else prems[:-1])
+                ask(C, ps, "autohist/%s/%d-%s" % (name, step, how), again="#%d" % step)
+                # the two sides separately against themselves: only the normaliser's memo is exercised
+            ask(Eq(C.lhs, C.lhs), [], "autohist/%s/lhs-refl" % name, again="#r%d" % k)
+    out.f.close()
+    print("auto history events", out.tid, "rules", len(names), "abandoned", sorted(slow))
+
+
 if __name__ == "__main__":
-    if sys.argv[1] == "arith":
+    if sys.argv[1] == "autohist":
+        autohist(sys.argv[2], int(sys.argv[3]) if len(sys.argv) > 3 else 0, int(sys.argv[4]) if len(sys.argv) > 4 else 0)
+    elif sys.argv[1] == "arith":
         arith(sys.argv[2], sys.argv[3], int(sys.argv[4]) if len(sys.argv) > 4 else 0)
     elif sys.argv[1] == "verit":
         verit(sys.argv[2], sys.argv[3], int(sys.argv[4]) if len(sys.argv) > 4 else 0)
